@@ -356,7 +356,7 @@ def forced_recursive_spec(rng, kind):
 
 NT0 = dict(term=False, type=[])
 def forced_finding_specs():
-    """minimal inputs of the defect classes found by this check and since repaired in /repo (b84d904, 839ae95, e1d8ad4, fc474fc); kept in every run as regression cases"""
+    """minimal inputs of the defect classes found by this check and since repaired in /repo (b84d904, 839ae95, e1d8ad4, fc474fc, 124928a); kept in every run as regression cases"""
     F = Fraction
     dead = dict(nlabels=[2], elabels=[NT0, NT0, dict(term=True, type=[0])], start=0,
                 rules=[dict(lhs=0, nodes=[0], edges=[(2, [0])], ext=[]), dict(lhs=0, nodes=[0], edges=[(2, [0]), (1, [])], ext=[])],
@@ -472,7 +472,9 @@ def run(tier, seed):
     sr1 = SR("real", "float64", Fraction(1))
     bin_jobs.append((unreach_spec, sr1, "fixed-point", [Fraction(1)], True, False, "G", None, pool.submit(run_bin, unreach_spec, "fixed-point", None, "G")))
     bin_jobs.append((size1_spec, sr1, "newton", [Fraction(1)], True, False, "ge", 1, pool.submit(run_bin, size1_spec, "newton", None, "ge", factor=1)))
-    n_bin += 2
+    # regression case of 124928a: -e on a factor that cannot influence the start symbol (absent gradient)
+    bin_jobs.append((unreach_spec, sr1, "fixed-point", [Fraction(1)], True, False, "ge", 3, pool.submit(run_bin, unreach_spec, "fixed-point", None, "ge", factor=3)))
+    n_bin += 3
     while len(bin_jobs) < n_bin and tries < 400:
         tries += 1
         recursive = len(bin_jobs) % 2 == 1
